@@ -1,5 +1,6 @@
 """Per-property configuration of the check driver."""
 import translate
+import c19_matrix
 SPECS = {
     "C13": {
         "id": "C13", "runners": ["RunC13"],
@@ -119,5 +120,11 @@ SPECS = {
         "partial": ["the round trip over a type grammar (C04_full) is not a theorem; it is evaluated on the implementation for the zoo types"],
         "info_meaning": "[cases whose traced schema is inside the builder model; cases fully judged by decode = interp]",
         "assumptions": ["the zoo samples serde_derive (the calls derived impls make); it does not verify it", "exclusions of the property: None for an Option<enum> mapped to a union (those types run only with enums_without_data_as_strings), the inner None of nested Options (not in the zoo)"],
+    },
+    "C19": {
+        "id": "C19", "runners": ["RunC19"], "translators": [translate.arrow_versions], "thorough_extra": c19_matrix.run_matrix,
+        "partial": ["the conversions marrow <-> arrow / arrow2 are external code (marrow): the equality of the back ends is differential testing; `the crate builds and behaves the same under feature configuration X` is a fact about cargo and the dependency versions that no Gallina model exhibits (thorough tier: a probe is built and run under further configurations)"],
+        "info_meaning": "[cases; cases where the arrow back end produced arrays]",
+        "assumptions": ["main harness: features arrow-55 + arrow2-0-17", "arrow2 is compared only on schemas whose types it offers"],
     },
 }
